@@ -30,6 +30,8 @@ class ItemSpec:
         self.rename = None
         self.params = None
         self.rule_args = {}
+        self.home = None
+        self.included_from = None
 
 
 class UnitSpec:
@@ -125,11 +127,21 @@ def parse(path):
                     for x in v:
                         if x not in u.rule_args.setdefault(k, []):
                             u.rule_args[k].append(x)
+                have = set()
+                for x in u.items:
+                    if isinstance(x, tuple):
+                        have.add(('raw', x[4], x[2]))
+                    else:
+                        have.add(('item', x.home, x.source, x.path))
                 for oi in other.items:
                     if isinstance(oi, tuple):
-                        u.items.append(oi)
+                        if ('raw', oi[4], oi[2]) not in have:
+                            u.items.append(oi)
                         continue
-                    oi.included_from = ws[0]
+                    if ('item', oi.home, oi.source, oi.path) in have:
+                        continue
+                    if not getattr(oi, 'included_from', None):
+                        oi.included_from = ws[0]
                     if oi.rules is None:
                         oi.rules = list(other.rules)
                     if stubs:
@@ -150,9 +162,9 @@ def parse(path):
                 text, i = take_block(i)
                 hdr = rest[:-3].strip()
                 if hdr.startswith('in '):
-                    u.items.append(('rawin', text, lineno, hdr[3:].strip()))
+                    u.items.append(('rawin', text, lineno, hdr[3:].strip(), u.name))
                 else:
-                    u.items.append(('raw', text, lineno))
+                    u.items.append(('raw', text, lineno, None, u.name))
                 continue
             elif word == 'item':
                 pe = rest
@@ -160,6 +172,7 @@ def parse(path):
                 if ' as ' in rest:
                     pe, as_header = rest.split(' as ', 1)
                 cur = ItemSpec(cur_source, pe.strip(), lineno)
+                cur.home = u.name
                 cur.as_header = as_header.strip() if as_header else None
                 u.items.append(cur)
             else:
